@@ -37,6 +37,7 @@ def _corrupt_ctx(e):
 
 
 STATEFUL = {"Trace_Ctx", "Trace_Reg"}
+WHOLE_TRACE_CANARY = {"Trace_Ffi"}
 
 
 def _tag_serde(e):
@@ -105,7 +106,14 @@ def _corrupt_conc(e):
     return True
 
 
-CORRUPTORS = {"Trace_Conc": _corrupt_conc, "Trace_Total": _corrupt_total, "Trace_Contains": _corrupt_contains, "Trace_Lit": _corrupt_lit, "Trace_Panic": _corrupt_panic, "Trace_Lang": _corrupt_lang, "Trace_Ctx": _corrupt_ctx, "Trace_Reg": _corrupt_reg,
+def _corrupt_ffi(e):
+    if e.get("status") == "err" and not e["le_after"]["null"] and e["le_after"]["b"]:
+        e["le_after"]["b"][0] = 0
+        return True
+    return False
+
+
+CORRUPTORS = {"Trace_Ffi": _corrupt_ffi, "Trace_Conc": _corrupt_conc, "Trace_Total": _corrupt_total, "Trace_Contains": _corrupt_contains, "Trace_Lit": _corrupt_lit, "Trace_Panic": _corrupt_panic, "Trace_Lang": _corrupt_lang, "Trace_Ctx": _corrupt_ctx, "Trace_Reg": _corrupt_reg,
               "Trace_Types": _corrupt_types, "Trace_Serde": _corrupt_serde}
 
 
@@ -417,6 +425,22 @@ CHECKS = {
             lang("lists", "rich", 4000, 120000, ["--nctx", "6", "--depth", "2", "--listpct", "70", "--badname", "30"], shards=SH),
             mc("histories", "MC_C08.tla", dict(quick="MC_C08_quick.cfg", thorough="MC_C08_thorough.cfg"), replay_cmd="replay-hist"),
             trace("list-histories", "Trace_Ctx", ["gen-hist", "--len", "50", "--listpct", "25"], 30, 800, shards=SH),
+        ],
+    ),
+    "C20": dict(
+        level="model_checking",
+        rule="WfFfi (per-thread last error: unchanged by success, set to a non-empty NUL-free text by failure, reset by clear, never "
+             "touched by another thread) is model-checked for 2 threads x 4 calls. Sessions on 4 concurrent threads drive the exported "
+             "functions as Rust functions side by side with the Rust API on twin objects: scheme construction, parse (random and "
+             "mutated filters; NUL, invalid UTF-8, garbage; a function panicking in check_param), serialize, hash (vs FNV-1a of the Rust "
+             "JSON), uses/uses_list (known, unknown, non-UTF-8 names), compile and match (incl. panicking functions and a context of "
+             "another scheme), typed and JSON setters (right/wrong type, unknown and non-UTF-8 names), context (de)serialization, "
+             "get/clear last error. Trace_Ffi keeps every thread's last error as state and accepts a call iff status and output equal "
+             "the Rust API's and the last-error protocol is obeyed (text = Rust error text with NUL -> 0x1A).",
+        assumptions=["the C API is called from Rust through the rlib", "FNV-1a is computed with the fnv crate"],
+        stages=[
+            mc("last-error-model", "MC_C20.tla", "MC_C20.cfg", replay=False),
+            trace("sessions", "Trace_Ffi", ["gen-ffi", "--steps", "60"], 3, 120, shards=dict(quick=1, thorough=6)),
         ],
     ),
 }
